@@ -57,7 +57,12 @@ func (o Op) String() string {
 		a = append(a, fmt.Sprintf("%d", o.M))
 	}
 	if o.Data != "" {
-		a = append(a, fmt.Sprintf("data=%q", o.Data))
+		if len(o.Data) > 64 {
+			// large buffers are a short unit repeated: the head and the length identify them
+			a = append(a, fmt.Sprintf("data=%q...(%d bytes)", o.Data[:24], len(o.Data)))
+		} else {
+			a = append(a, fmt.Sprintf("data=%q", o.Data))
+		}
 	}
 	if o.K == "OpenFile" || o.K == "Create" || o.K == "Open" || o.K == "CreateTemp" {
 		a = append(a, fmt.Sprintf("->h%d", o.H))
